@@ -1,0 +1,5 @@
+//go:build !verif
+
+package keeper
+
+func verifFailpoint(string) error { return nil }
